@@ -448,6 +448,16 @@ func init() {
 		}
 		// synthetic lists larger than the read buffer: repeated host names, rules of
 		// every kind, with and without a final line terminator
+		// a rule line longer than 64 KiB between two short ones
+		{
+			var ds []string
+			for i := 0; i < 5000; i++ {
+				ds = append(ds, fmt.Sprintf("site%05d.test", i))
+			}
+			huge := "||before.test^\n/huge$domain=" + strings.Join(ds, "|") + "\n||after.test^\n0.0.0.0 after.test\n"
+			evals += c11Check(c, []c11List{{3, huge, false}}, map[string]any{"synthetic": "a rule of " + fmt.Sprint(len(huge)) + " bytes"}, map[string]any{"lists": []any{}})
+			configs++
+		}
 		for _, final := range []string{"\n", ""} {
 			evals += c11Check(c, c11Synthetic(final), map[string]any{"synthetic": "400 lines", "final": final}, map[string]any{"synthetic_final": final})
 			configs++
